@@ -82,6 +82,11 @@ def model (name : String) (a : List Int) : Option String :=
       some (if l = 0 then "None" else PyShow.sh (l : Int))
   | "Hexagonal.HexGrid._getSymmetricIdenticalsThird", [i, j, _] => some (PyShow.sh (Hex.sym3 (i, j)))
   | "Hexagonal.HexGrid.isInFirstThird", [top, i, j, _] => some (PyShow.sh (Hex.inFirstThird (top != 0) (i, j)))
+  | "Hexagonal.HexGrid.rotateIndex", [rot, cons, i, j, k] =>
+      if cons != 0 then
+        let r := Hex.rotateIndex rot (i, j)
+        some (PyShow.sh (r.1, r.2, k))
+      else some "reject"
   | "Thetarz.ThetaRZGrid.getRingPos", [i, j, _] => some (PyShow.sh (Grid.trzRingPos i j))
   | "Thetarz.ThetaRZGrid.getIndicesFromRingAndPos", [r, p] => some (PyShow.sh (Grid.trzFromRingPos r p))
   | "NuclideBases.NuclideBase.getMcnpId", [z, a, s] =>
@@ -89,6 +94,7 @@ def model (name : String) (a : List Int) : Option String :=
         some (PyShow.sh (z, ((Nuclide.mcnpA z.toNat a.toNat s.toNat : Nat) : Int)))
       else some "out-of-domain"
   | "NuclideBases.NuclideBase.getAAAZZZSId", [z, a, s] => some (PyShow.sh (a, z, s))
+  | "Cartesian.CartesianGrid.getRingPos", [i, j, t] => some (PyShow.sh (Grid.cartRingPos (t != 0) i j))
   | "Cartesian.CartesianGrid.getPositionsInRing", [r, t] => some (PyShow.sh (Grid.cartPositionsInRing (t != 0) r))
   | _, _ => none
 
